@@ -54,6 +54,7 @@ REQUIRED += ["cp:%s:con%d$" % (kind, c) for kind in ("bernoulli", "zeros", "full
 # label-set growth at each place a label is made
 REQUIRED += ["cp:growth:%s" % site for site in ("col0", "lastcol", "middle", "firstrow")]
 REQUIRED += ["mask_to_coo:nnz\\+:negative"]
+REQUIRED += ["blob2D:.*:coord>46340"]
 
 
 def kernel_sources():
@@ -240,8 +241,9 @@ def layer_asan_module(run, tmp, tier):
             run.violation("crash:asan-module:%s" % prop, "workload of %s died inside the ASan process rc=%d: %s"
                           % (prop, p.returncode, p.stderr.decode(errors="replace")[-500:]), dict(workload=prop))
         nrep = 0
-        for f in glob.glob(lp + "*"):
-            txt = open(f, errors="replace").read()
+        # gcc's UBSan runtime prints to stderr whatever log_path says: the child's stderr is read like a log file
+        texts = [open(f, errors="replace").read() for f in glob.glob(lp + "*")] + [p.stderr.decode(errors="replace")]
+        for txt in texts:
             blocks = re.split(r"(?==+\d+==ERROR: AddressSanitizer)|(?=\S+:\d+:\d+: runtime error)", txt)
             for b in blocks:
                 if "AddressSanitizer" not in b and "runtime error" not in b:
